@@ -67,6 +67,12 @@ def gen(rng, tier, dist):
         dist["depth<=%d" % d] = dist.get("depth<=%d" % d, 0) + 1
         dist["elements=%d" % k] = dist.get("elements=%d" % k, 0) + 1
         out.append("bun " + show_tree(t))
+    # subtree_serialize: a bundle of the captured replies of a 3-parameter object, every capacity
+    for _ in range(3 if tier == "quick" else 40):
+        vals = [rng.choice([0, 1, -1, 127, -128, 2**31 - 1, -2**31, rng.randint(-1000, 1000)]) for _ in range(3)]
+        for cap in range(0, 76 + 9):
+            out.append("sub %d %d %d %d" % (cap, vals[0], vals[1], vals[2]))
+            dist["subtree-capacities"] = dist.get("subtree-capacities", 0) + 1
     for _ in range(300 if tier == "quick" else 5000):
         a, tg, ar = gen_message(rng)
         if rng.random() < 0.3:
@@ -79,6 +85,20 @@ def spec_check(case, impl):
     f = case.split(" ")
     if impl.startswith("CRASH") or impl == "NOOUT":
         return "bundles: the implementation crashed (%s)" % impl[:300]
+    if f[0] == "sub":
+        cap = int(f[1]); vals = [int(x) for x in f[2:5]]
+        els = [enc_spec(n, "i", [("4", v & 0xffffffff)]) for n, v in zip([b"/a", b"/bcd", b"/efghi"], vals)]
+        B = b"#bundle\0" + struct.pack(">Q", 0xdeadbeef0a0b0c0d) + b"".join(struct.pack(">I", len(e)) + e for e in els)
+        g = parse_fields(impl)
+        if cap >= len(B):
+            want_r, want_b = len(B), hx(B + b"\0" * (cap - len(B)))
+            if g.get("r") != str(want_r) or g.get("b") != want_b:
+                return "bundles: subtree_serialize with capacity %d: got r=%s, expected the %d-byte bundle of the three replies" % (cap, g.get("r"), len(B))
+        else:
+            # does not fit: 0 is returned and nothing outside the block is touched (ASan); the block keeps its size
+            if g.get("r") != "0" or (cap and len(g.get("b", "")) != 2 * cap):
+                return "bundles: subtree_serialize with capacity %d < %d returned %s" % (cap, len(B), g.get("r"))
+        return None
     if f[0] == "pm":
         if impl != "p=0":
             return "bundles: a plain message is reported as a bundle (%s)" % impl
